@@ -44,6 +44,13 @@ spec("wf_acl(acl)", "forall(k, 0, len(acl._acl), acl._acl[k] is None or wf_rule(
 # no earlier position holds a matching rule
 spec("none_match_before(acl, f, n)", "forall(j, 0, n, acl._acl[j] is None or not matches(acl._acl[j], f))")
 
+# the verdict of a packet filter, from the statement of C07: first matching rule by position, else the implicit action
+spec("permits(acl, f)", """
+    exists(p, 0, len(acl._acl), acl._acl[p] is not None and matches(acl._acl[p], f) and none_match_before(acl, f, p)
+           and acl._acl[p].action == ACLAction.PERMIT)
+    or (none_match_before(acl, f, len(acl._acl)) and acl.implicit_action == ACLAction.PERMIT)
+""")
+
 contract(f"{R}::AccessControlList.is_permitted",
          props=["C07"],
          requires=["wf_acl(self)",
@@ -56,6 +63,8 @@ contract(f"{R}::AccessControlList.is_permitted",
              ("first_match", "forall(p, 0, len(self._acl), implies("
                              "self._acl[p] is not None and matches(self._acl[p], frame) and none_match_before(self, frame, p),"
                              "result[1] is self._acl[p] and result[0] == (self._acl[p].action == ACLAction.PERMIT)))"),
+             # the verdict as one formula (used by the callers: Router / Firewall frame handling)
+             ("verdict", "result[0] == old(permits(self, frame))"),
              # ... else the implicit action
              ("implicit", "implies(none_match_before(self, frame, len(self._acl)),"
                           "result[1] is self.implicit_rule and result[0] == (self.implicit_action == ACLAction.PERMIT))"),
